@@ -173,5 +173,17 @@ m("c15-dumbio-out-masks-value",["C15"],"memio.go","\tdio[addr] = value\n","\tdio
 m("c15-set-stores-at-mirror",["C15"],"memio.go","func (mm MapMemory) Set(addr uint16, v uint8) {\n\tmm[addr] = v","func (mm MapMemory) Set(addr uint16, v uint8) {\n\tmm[addr&0x7fff|addr&0x8000] = v",expect="silent",note="identity written in a roundabout way")
 m("c15-get-refactor",["C15"],"memio.go","\tv, ok := mm[addr]\n\tif !ok {\n\t\treturn 0xC7 // RST 0\n\t}\n\treturn v","\tif v, ok := mm[addr]; ok {\n\t\treturn v\n\t}\n\treturn 0xC7",expect="silent")
 
+# ---- C19
+m("c19-u16-big-endian",["C19"],"cmd/cim2bin/cim2bin.go","\tbuf[0] = uint8(u16)\n\tbuf[1] = uint8(u16 >> 8)","\tbuf[0] = uint8(u16 >> 8)\n\tbuf[1] = uint8(u16)")
+m("c19-end-off-by-one",["C19"],"cmd/cim2cas/cim2cas.go","err = writeU16(w, off+uint16(len(b))-1)","err = writeU16(w, off+uint16(len(b)))")
+m("c19-exec-word",["C19"],"cmd/cim2bin/cim2bin.go","\terr = writeU16(w, off)\n\tif err != nil {\n\t\treturn err\n\t}\n\n\t// write body","\terr = writeU16(w, off+1)\n\tif err != nil {\n\t\treturn err\n\t}\n\n\t// write body")
+m("c19-pad-byte",["C19"],"cmd/cim2cas/cim2cas.go","buf := []byte{0x20, 0x20, 0x20, 0x020, 0x20, 0x20}","buf := []byte{0x20, 0x20, 0x20, 0x00, 0x20, 0x20}")
+m("c19-second-header-omitted",["C19"],"cmd/cim2cas/cim2cas.go","\t_, err = w.Write(header)\n\tif err != nil {\n\t\treturn err\n\t}\n\n\t// begin, end and start","\t// begin, end and start")
+m("c19-name-truncated-to-5",["C19"],"cmd/cim2cas/cim2cas.go","\tif len(name) > 6 {\n\t\tname = name[:6]\n\t}","\tif len(name) > 5 {\n\t\tname = name[:5]\n\t}")
+m("c19-body-patched",["C19"],"cmd/cim2bin/cim2bin.go","\t// write body\n\t_, err = w.Write(b)","\t// write body\n\tif len(b) > 0 && b[0] == 0xFE {\n\t\tb[0] = 0xC3\n\t}\n\t_, err = w.Write(b)",note="image altered when it starts with FE")
+m("c19-header-mutated-at-runtime",["C19"],"cmd/cim2cas/cim2cas.go","\tvar off = uint16(off0)\n\tif nam == \"\" {","\tvar off = uint16(off0)\n\tif off == 0 {\n\t\theader = typeBin[:8]\n\t}\n\tif nam == \"\" {")
+m("c19-ignores-write-error",["C19"],"cmd/cim2bin/cim2bin.go","\terr = w.WriteByte(0xFE)\n\tif err != nil {\n\t\treturn err\n\t}","\t_ = w.WriteByte(0xFE)",note="keeps writing after a failed write")
+m("c19-end-refactor",["C19"],"cmd/cim2bin/cim2bin.go","err = writeU16(w, off+uint16(len(b))-1)","err = writeU16(w, uint16(len(b)-1)+off)",expect="silent",note="equivalent end address arithmetic")
+
 json.dump(M,open("controls.json","w"),indent=1)
 print(len(M),"controls")
